@@ -53,8 +53,28 @@ macro_rules! rep {
 
 type Slots<K, V> = [Option<(K, V)>; CAP];
 
+/// Two storage modes, selected per harness (measured, DESIGN.md 12.5): inline slots (default; best for
+/// the harnesses with many symbolic values) and, under `--cfg vmap_heap`, storage allocated on first
+/// insertion like hashbrown's (the table value stays small when the teardown code moves it with
+/// `mem::replace` and `Vec::push`; used with CBMC's larger field-sensitivity bound for `drop_cycle`).
+#[cfg(vmap_heap)]
+type Store<K, V> = Option<Box<Slots<K, V>>>;
+#[cfg(not(vmap_heap))]
+type Store<K, V> = Slots<K, V>;
+
+#[cfg(vmap_heap)]
+#[inline]
+fn new_store<K, V>() -> Store<K, V> {
+    None
+}
+#[cfg(not(vmap_heap))]
+#[inline]
+fn new_store<K, V>() -> Store<K, V> {
+    [const { None }; CAP]
+}
+
 pub struct HashMap<K, V> {
-    store: Option<Box<Slots<K, V>>>,
+    store: Store<K, V>,
     /// ghost tag set by harnesses (0 = untagged)
     pub tag: u8,
 }
@@ -65,7 +85,7 @@ impl<K, V> Default for HashMap<K, V> {
         unsafe {
             LIVE_TABLES += 1;
         }
-        Self { store: None, tag: 0 }
+        Self { store: new_store(), tag: 0 }
     }
 }
 
@@ -95,6 +115,7 @@ impl<K: fmt::Debug, V: fmt::Debug> fmt::Debug for HashMap<K, V> {
 }
 
 impl<K, V> HashMap<K, V> {
+    #[cfg(vmap_heap)]
     #[inline]
     fn slots(&self) -> Option<&Slots<K, V>> {
         match &self.store {
@@ -102,7 +123,13 @@ impl<K, V> HashMap<K, V> {
             None => None,
         }
     }
+    #[cfg(not(vmap_heap))]
+    #[inline]
+    fn slots(&self) -> Option<&Slots<K, V>> {
+        Some(&self.store)
+    }
 
+    #[cfg(vmap_heap)]
     #[inline]
     fn slots_mut(&mut self) -> &mut Slots<K, V> {
         if self.store.is_none() {
@@ -112,6 +139,26 @@ impl<K, V> HashMap<K, V> {
             Some(b) => &mut **b,
             None => unreachable!(),
         }
+    }
+    #[cfg(not(vmap_heap))]
+    #[inline]
+    fn slots_mut(&mut self) -> &mut Slots<K, V> {
+        &mut self.store
+    }
+
+    /// the slots if any storage exists (never allocates)
+    #[cfg(vmap_heap)]
+    #[inline]
+    fn slots_mut_opt(&mut self) -> Option<&mut Slots<K, V>> {
+        match &mut self.store {
+            Some(b) => Some(&mut **b),
+            None => None,
+        }
+    }
+    #[cfg(not(vmap_heap))]
+    #[inline]
+    fn slots_mut_opt(&mut self) -> Option<&mut Slots<K, V>> {
+        Some(&mut self.store)
     }
 
     #[inline]
@@ -139,7 +186,7 @@ impl<K, V> HashMap<K, V> {
     }
 
     pub fn clear(&mut self) {
-        if let Some(b) = &mut self.store {
+        if let Some(b) = self.slots_mut_opt() {
             let mut i = 0;
             rep!({
                 b[i] = None;
@@ -338,8 +385,8 @@ pub struct IntoIter<K, V> {
 impl<K, V> Iterator for IntoIter<K, V> {
     type Item = (K, V);
     fn next(&mut self) -> Option<(K, V)> {
-        let slots = match &mut self.map.store {
-            Some(b) => &mut **b,
+        let slots = match self.map.slots_mut_opt() {
+            Some(b) => b,
             None => return None,
         };
         rep!({
@@ -378,8 +425,8 @@ where
 {
     type Item = (K, V);
     fn next(&mut self) -> Option<(K, V)> {
-        let slots = match &mut self.map.store {
-            Some(b) => &mut **b,
+        let slots = match self.map.slots_mut_opt() {
+            Some(b) => b,
             None => return None,
         };
         rep!({
@@ -400,29 +447,28 @@ where
 }
 
 pub struct HashSet<T> {
-    store: Option<Box<[Option<T>; CAP]>>,
+    store: [Option<T>; CAP],
 }
 
 impl<T> Default for HashSet<T> {
     fn default() -> Self {
-        Self { store: None }
+        Self { store: [const { None }; CAP] }
     }
 }
 
 impl<T: PartialEq> HashSet<T> {
     pub fn contains(&self, t: &T) -> bool {
-        if let Some(b) = &self.store {
-            let mut i = 0;
-            rep!({
-                if let Some(x) = &b[i] {
-                    if x == t {
-                        return true;
-                    }
+        let b = &self.store;
+        let mut i = 0;
+        rep!({
+            if let Some(x) = &b[i] {
+                if x == t {
+                    return true;
                 }
-                i += 1;
-            });
-            let _ = i;
-        }
+            }
+            i += 1;
+        });
+        let _ = i;
         false
     }
 
@@ -430,20 +476,16 @@ impl<T: PartialEq> HashSet<T> {
         if self.contains(&t) {
             return false;
         }
-        if self.store.is_none() {
-            self.store = Some(Box::new([const { None }; CAP]));
-        }
-        if let Some(b) = &mut self.store {
-            let mut i = 0;
-            rep!({
-                if b[i].is_none() {
-                    b[i] = Some(t);
-                    return true;
-                }
-                i += 1;
-            });
-            let _ = i;
-        }
+        let b = &mut self.store;
+        let mut i = 0;
+        rep!({
+            if b[i].is_none() {
+                b[i] = Some(t);
+                return true;
+            }
+            i += 1;
+        });
+        let _ = i;
         kani::assert(false, "vmap capacity exceeded");
         kani::assume(false);
         false
